@@ -300,6 +300,10 @@ fn shape(v: &crate::value::ValueRepr, ids: &mut HashMap<usize, usize>, out: &mut
         String(s) => object!(s.as_ptr(), {
             let _ = write!(out, "{:?}", &**s);
         }),
+        // a constructor without fields is a `Tag` or an empty data object, interchangeably
+        Data(d) if d.fields.is_empty() => {
+            let _ = write!(out, "T{}", d.tag());
+        }
         Data(d) => object!(&**d as *const crate::value::DataStruct, {
             let _ = write!(out, "D{}(", d.tag());
             for (i, f) in d.fields.iter().enumerate() {
